@@ -50,3 +50,10 @@ size_t vx_dump_nodes(char *buf, size_t n, long now_sec) {
 	}
 	return o;
 }
+int vx_node_deferred(const uint8_t addr[4], uint8_t *types, int max) {
+	t_bidib_node_state *s = vx_lookup(addr);
+	if (!s) return 0;
+	int k = 0;
+	for (GList *l = s->message_queue->head; l && k < max; l = l->next) types[k++] = ((t_bidib_message_queue_entry *) l->data)->type;
+	return k;
+}
